@@ -5,7 +5,13 @@
 //        for /<i>/<behaviour> and the server answers with body "resp-<i>":
 //          a at once, d after 60 ms, b byte-dribbled, c chunked, x with Connection: close and then closes,
 //          n never, h half an answer and then nothing, H the whole head and most of the body and then nothing, l late (time-out + 300 ms), e delayed 250 ms, g delayed 70% of the time-out (used in wave 2 to be in flight when a late response arrives)
+//          X closes the connection without answering,  T answers at the very moment the request's own time-out expires
+//          (+-1 ms: the response and the timer event reach the client in the same batch of events)
+//        a behaviour may carry its own time-out: <b>@<ms> (0 = none)
 //        wave 2 is issued <gap ms> (default time-out + 100 ms) after wave 1
+//   L <client threads> <rounds>     one connection per host; per round request A (answered at once) and, 0-300 us later,
+//        request B: B finds the connection busy and is queued while A may complete at that very moment
+//     -> L stuck=<rounds in which a request was not settled within 2 s> wrong=<requests fulfilled with another body>
 //     -> K r=<outcome per request: F<i of the body received> | R rejected | P still pending> twice=<promises settled twice>
 //            accepted=<connections the server accepted in total> limit=<configured connections per host>
 #include <pistache/client.h>
@@ -96,9 +102,10 @@ struct Server
             std::string head = buf.substr(0, he);
             buf.erase(0, he + 4);
             // GET /<i>/<b> HTTP/1.1
-            size_t s1 = head.find('/'), s2 = head.find('/', s1 + 1);
+            size_t s1 = head.find('/'), s2 = head.find('/', s1 + 1), s3 = head.find('/', s2 + 1);
             std::string id = head.substr(s1 + 1, s2 - s1 - 1);
             char b         = head[s2 + 1];
+            int own_ms     = s3 != std::string::npos && s3 < head.find(' ', s2) ? atoi(head.c_str() + s3 + 1) : timeout_ms;
             std::string body = "resp-" + id;
             std::string plain = "HTTP/1.1 200 OK\r\nX-Id: " + id + "\r\nContent-Length: " + std::to_string(body.size()) + "\r\n\r\n" + body;
             auto alive = [&]() {
@@ -146,6 +153,17 @@ struct Server
                 pv::send_all(c, "HTTP/1.1 200 OK\r\nConnection: close\r\nContent-Length: " + std::to_string(body.size()) + "\r\n\r\n" + body);
                 ::shutdown(c, SHUT_RDWR);
                 return;
+            case 'X':
+                ::shutdown(c, SHUT_RDWR);
+                return;
+            case 'T':
+            {
+                // aim at the expiry of the client's timer, which was armed just before the request was sent
+                int off_us = -1000 + (atoi(id.c_str()) * 137) % 1200;
+                std::this_thread::sleep_for(std::chrono::microseconds(own_ms * 1000 + off_us));
+                pv::send_all(c, plain);
+                break;
+            }
             case 'n':
                 while (!stop && !gone)
                     nap(50);
@@ -209,9 +227,49 @@ std::vector<std::string> behaviours(const std::string& s)
 }
 } // namespace
 
+static std::string lost_wakeup(int threads, int rounds)
+{
+    Server srv;
+    srv.start();
+    int stuck = 0, wrong = 0;
+    {
+        Http::Experimental::Client client;
+        client.init(Http::Experimental::Client::options().threads(threads).maxConnectionsPerHost(1));
+        std::string base = "http://127.0.0.1:" + std::to_string(srv.port) + "/";
+        unsigned x       = 12345;
+        for (int r = 0; r < rounds && stuck < 3; ++r)
+        {
+            std::atomic<int> done { 0 }, bad { 0 };
+            auto issue = [&](int id) {
+                auto p = client.get(base + std::to_string(id) + "/a").send();
+                p.then([&, id](Http::Response rsp) { if (rsp.body() != "resp-" + std::to_string(id)) ++bad; ++done; },
+                       [&](std::exception_ptr) { ++done; });
+                return p;
+            };
+            auto pa = issue(2 * r);
+            x       = x * 1103515245u + 12345u;
+            auto until = std::chrono::steady_clock::now() + std::chrono::microseconds((x >> 16) % 300);
+            while (std::chrono::steady_clock::now() < until)
+                ;
+            auto pb = issue(2 * r + 1);
+            for (int k = 0; k < 20000 && done.load() < 2; ++k)
+                std::this_thread::sleep_for(std::chrono::microseconds(100));
+            if (done.load() < 2)
+                ++stuck;
+            wrong += bad.load();
+        }
+        srv.stop = true;
+        client.shutdown();
+    }
+    srv.shutdown();
+    return "L stuck=" + std::to_string(stuck) + " wrong=" + std::to_string(wrong);
+}
+
 static std::string handle(const std::string& line)
 {
     auto t = pv::split(line);
+    if (t.size() == 3 && t[0] == "L")
+        return lost_wakeup(atoi(t[1].c_str()), atoi(t[2].c_str()));
     if (t.size() < 6)
         return "BADCASE";
     int threads = atoi(t[1].c_str());
@@ -236,11 +294,14 @@ static std::string handle(const std::string& line)
         Http::Experimental::Client client;
         client.init(Http::Experimental::Client::options().threads(threads).maxConnectionsPerHost(maxconn));
         std::vector<Async::Promise<Http::Response>> keep;
-        auto issue = [&](size_t i, const std::string& b) {
-            std::string url = "http://127.0.0.1:" + std::to_string(srv.port) + "/" + std::to_string(i) + "/" + b;
+        auto issue = [&](size_t i, const std::string& bt) {
+            auto at      = bt.find('@');
+            std::string b = bt.substr(0, at);
+            int own       = at == std::string::npos ? timeout : atoi(bt.c_str() + at + 1);
+            std::string url = "http://127.0.0.1:" + std::to_string(srv.port) + "/" + std::to_string(i) + "/" + b + "/" + std::to_string(own);
             auto rb         = client.get(url);
-            if (timeout > 0)
-                rb.timeout(std::chrono::milliseconds(timeout));
+            if (own > 0)
+                rb.timeout(std::chrono::milliseconds(own));
             auto p = rb.send();
             p.then(
                 [i](Http::Response rsp) {
